@@ -125,9 +125,208 @@ def _cmp(ctx, w, wt, where, ops):
                          {"ops": [gen.op_json(o) for o in ops]}, stop=True)
 
 
+# ------------------------------------------------------------------ git mode
+# Relaxations (the only ones): paths, not ids; a directory is versioned iff it contains a versioned file or
+# symlink (empty directories are not versioned); a rename may be reported as rename or as delete+add (compared
+# through the set of changed paths); kind changes are not generated.
+
+def _g_live_dirs(w):
+    """ids of model directories that contain (transitively) a versioned non-directory entry."""
+    live = set()
+    for i, e in w.ents.items():
+        if i == model.ROOT or e.kind == "directory":
+            continue
+        p = e.parent
+        while p != model.ROOT and p not in live:
+            live.add(p)
+            p = w.ents[p].parent
+    return live
+
+
+def _g_model_view(w, ents=None):
+    src = w if ents is None else None
+    out = {}
+    if ents is None:
+        live = _g_live_dirs(w)
+        for pth, (kind, content, ex, fid) in w.tree_view().items():
+            e = w.ents[fid]
+            if kind == "directory":
+                if fid in live:
+                    out[pth] = ("directory", None, False)
+            elif e.missing or gen._under_missing(w, fid):
+                out[pth] = (None, None, False)
+            else:
+                out[pth] = (kind, content, ex)
+    else:
+        tmp = model.MWorld()
+        tmp.ents = ents
+        live = _g_live_dirs(tmp)
+        for pth, (kind, content, ex, fid) in tmp.tree_view().items():
+            if kind == "directory":
+                if fid in live:
+                    out[pth] = ("directory", None, False)
+            else:
+                out[pth] = (kind, content, ex)
+    return out
+
+
+def _g_real_view(wt):
+    out = {}
+    with wt.lock_read():
+        for path, ie in wt.iter_entries_by_dir():
+            if path == "":
+                continue
+            try:
+                kind = wt.kind(path)
+            except Exception as e:
+                if type(e).__name__ not in ("NoSuchFile", "FileNotFoundError"):
+                    raise
+                kind = None
+            content, ex = None, False
+            if kind == "file":
+                content = wt.get_file_text(path)
+                ex = bool(wt.is_executable(path))
+            elif kind == "symlink":
+                content = wt.get_symlink_target(path)
+            elif kind == "directory" and ie.kind != "directory":
+                kind = None
+            out[path] = (kind, content, ex)
+    return out
+
+
+def _g_cmp(ctx, w, wt, where, ops):
+    rv = _g_real_view(wt)
+    mv = _g_model_view(w)
+    mv_full = dict(mv)
+    # observation, not judged: a versioned symlink that is missing on disk is skipped by the git tree's
+    # iter_entries_by_dir (its target cannot be read) although is_versioned() stays true; missing files are listed
+    for q, i in w.paths().items():
+        if q in mv and q not in rv and mv[q][0] is None and w.ents[i].kind == "symlink":
+            del mv[q]
+            ctx.hist("git-missing-symlink-not-listed")
+    for q in sorted((q for q, v in mv.items() if v[0] == "directory"), key=lambda x: -x.count("/")):
+        if q not in rv and not any(r.startswith(q + "/") for r in mv):
+            del mv[q]  # a directory whose only versioned content is such an unlisted symlink
+    ctx.count("git_cmp_tree")
+    if rv != mv:
+        diffs = [(p, "real=%r" % (rv.get(p),), "model=%r" % (mv.get(p),)) for p in sorted(set(rv) | set(mv)) if rv.get(p) != mv.get(p)]
+        ctx.fail("git:tree-vs-model:%s:%s" % (where, "paths" if set(rv) != set(mv) else "attrs"), "after %s: %r" % (ops[-1].get("op") if ops else None, diffs[:4]),
+                 {"ops": [gen.op_json(o) for o in ops]}, stop=True)
+    bv = _g_model_view(w, w.basis) if w.basis is not None else {}
+    mv = mv_full
+    mchanged = {p for p in set(bv) | set(mv) if bv.get(p) != mv.get(p)}
+    rchanged = set()
+    with wt.lock_read():
+        bt = wt.basis_tree()
+        with bt.lock_read():
+            for c in wt.iter_changes(bt):
+                for q in c.path:
+                    if q:
+                        rchanged.add(q)
+    ctx.count("git_cmp_changes")
+    # a directory whose set of children changed is not itself a change in the model's path view; ignore directories on both sides
+    def nondirs(paths):
+        return {q for q in paths if not (mv.get(q, (None,))[0] == "directory" or bv.get(q, (None,))[0] == "directory")}
+    if nondirs(rchanged) != nondirs(mchanged):
+        ctx.fail("git:changes-vs-model:%s" % where, "after %s: only real %r, only model %r" % (ops[-1].get("op") if ops else None, sorted(nondirs(rchanged) - nondirs(mchanged))[:4], sorted(nondirs(mchanged) - nondirs(rchanged))[:4]),
+                 {"ops": [gen.op_json(o) for o in ops]}, stop=True)
+
+
+def case_git(ctx):
+    from breezy.workingtree import WorkingTree
+
+    rng = ctx.rng
+    names = gen.Names(ctx.tier)
+    d = ctx.tmp("gwt")
+    p = os.path.join(d, "t")
+    wt = gen.make_tree(p, "git")
+    w = model.MWorld()
+    nops = rng.randint(6, 14) if ctx.tier == "quick" else rng.randint(10, 40)
+    weights = dict(gen.DEFAULT_WEIGHTS)
+    weights["kindchange"] = 0
+    ops, kinds = [], []
+    ctx.info["ops"] = ops
+    for step in range(nops):
+        r = rng.random()
+        if r < 0.08 and _g_model_view(w) != (_g_model_view(w, w.basis) if w.basis is not None else {}):
+            op = {"op": "commit"}
+        elif r < 0.12 and w.basis is not None:
+            op = {"op": "revert"}
+        elif r < 0.22:
+            op = {"op": "reopen"}
+        else:
+            op = gen.gen_op(rng, w, names, weights)
+            if op is None:
+                continue
+            if op["op"] in ("rename", "remove", "unversion"):
+                # git cannot name a directory that holds nothing versioned
+                i = w.id_at(op.get("src") or op["path"])
+                if w.ents[i].kind == "directory" and i not in _g_live_dirs(w):
+                    continue
+            if op["op"] == "delete_disk" and w.id_at(op["path"]) is not None and w.ents[w.id_at(op["path"])].kind == "directory" \
+                    and w.id_at(op["path"]) not in _g_live_dirs(w):
+                continue
+        ops.append(op)
+        kinds.append(op["op"])
+        ctx.hist("git-op:" + op["op"])
+        if op["op"] == "reopen":
+            wt = WorkingTree.open(p)
+            _g_cmp(ctx, w, wt, "reopen", ops)
+            ctx.count("git_cmp_reopen")
+            continue
+        if op["op"] == "commit":
+            wt.commit("m%d" % step)
+            w.apply(op)
+            bt = wt.basis_tree()
+            with bt.lock_read():
+                bv = {q: v[:3] for q, v in observe.snap_tree(bt, ids=False).items()}
+            mbv = _g_model_view(w, w.basis)
+            ctx.count("git_cmp_basis")
+            if bv != mbv:
+                diffs = [(q, bv.get(q), mbv.get(q)) for q in sorted(set(bv) | set(mbv)) if bv.get(q) != mbv.get(q)]
+                ctx.fail("git:basis-vs-model", "after commit: %r" % (diffs[:4],), {"ops": [gen.op_json(o) for o in ops]}, stop=True)
+        elif op["op"] == "revert":
+            rconf = wt.revert()
+            basis = w.basis
+            if rconf or len(wt.conflicts()):
+                ctx.hist("git-revert-with-conflicts")
+                wt.set_conflicts([])
+            # resynchronise the unversioned part (backup names are C12's subject); versioned part must equal the basis
+            w.ents = {i: e.copy() for i, e in basis.items()}
+            disk = observe.snap_disk(p)
+            if rconf:
+                w = gen.world_from_tree(wt)
+                w.basis = basis
+                ops.append({"op": "resync"})
+                continue
+            vp = w.paths()
+            w.unv = {q: v for q, v in disk.items() if q not in vp}
+            ctx.count("git_revert")
+        else:
+            if op["op"] == "add" and w.unv.get(op["path"], (None,))[0] == "directory":
+                pass  # adding a directory itself versions nothing in git; the model keeps it as a parent for later adds
+            try:
+                gen.apply_real(wt, op, use_ids=False)
+            except (KeyboardInterrupt, SystemExit):
+                raise
+            except BaseException as e:
+                ctx.fail("git:refused-legal-op:%s:%s" % (op["op"], type(e).__name__), "%r refused: %r" % (gen.op_json(op), e),
+                         {"ops": [gen.op_json(o) for o in ops]}, stop=True)
+            w.apply(op)
+        _g_cmp(ctx, w, wt, "live", ops)
+    wt = WorkingTree.open(p)
+    _g_cmp(ctx, w, wt, "final-reopen", ops)
+    ctx.count("git_cmp_reopen")
+    interesting = any(k in ("rename", "remove", "unversion", "delete_disk", "revert") for k in kinds)
+    ctx.note(("git", kinds, sorted((q, repr(v)) for q, v in _g_model_view(w).items())), nontrivial=len(kinds) >= 4 and interesting,
+             sample={"tree": "git", "ops": [gen.op_json(o) for o in ops][:14]})
+
+
 def case(ctx):
     from breezy.workingtree import WorkingTree
 
+    if ctx.index % 3 == 2:
+        return case_git(ctx)
     rng = ctx.rng
     names = gen.Names(ctx.tier)
     d = ctx.tmp("wt")
